@@ -229,6 +229,9 @@ def encode(input, errors="strict", encoding=None):
     consumed = len(input)
     if encoding is None:
         encoding = detectencoding_unicode(input, True)[0]
+        if encoding is None:
+            # unterminated '@charset "' and nothing more to come
+            encoding = "utf-8"
         if encoding.replace("_", "-").lower() == "utf-8-sig":
             input = _fixencoding(input, "utf-8", True)
     else:
@@ -386,6 +389,9 @@ if hasattr(codecs, "IncrementalEncoder"):
                 else:
                     # Use encoding from the @charset declaration
                     self.encoding = detectencoding_unicode(input, final)[0]
+                    if self.encoding is None and final:
+                        # unterminated '@charset "' and nothing more to come
+                        self.encoding = "utf-8"
                 if self.encoding is not None:
                     if self.encoding == "css":
                         raise ValueError("css not allowed as encoding name")
